@@ -261,10 +261,12 @@ class Ctx:
                 signal.setitimer(signal.ITIMER_REAL, 0)
                 signal.signal(signal.SIGALRM, old)
         except Hang as h:
-            if h.where:
-                # the call into selfies did not come back: every property presupposes that translation calls return
+            # a time budget that is hit is inconclusive, never a violation - unless the property module says that
+            # termination is part of what it checks (HANG_IS_VIOLATION) and the time was being spent inside selfies
+            if h.where and getattr(self.module, "HANG_IS_VIOLATION", False):
                 return Result(Fail("no_result_within_%ds@%s" % (self.eval_timeout, h.where), case=jdump(case)[:1500]))
-            raise HarnessError("evaluation exceeded %d s on case %s" % (self.eval_timeout, jdump(case)[:2000]))
+            raise HarnessError("evaluation exceeded %d s (inside %s) on case %s" % (
+                self.eval_timeout, h.where or "the harness", jdump(case)[:2000]))
         except HarnessError:
             raise
         except Exception:
